@@ -29,7 +29,7 @@ use std::sync::atomic::{AtomicU64, Ordering};
 use std::sync::Arc;
 use std::time::Duration;
 
-pub const RULE_C13: &str = "Each run draws one world from the tape (arch x86/amd64/arm/arm64, OS, 1-6 modules with shared leaf names and consistent / absent symbol files incl. CFI programs with aliased registers, 1-8 threads (occasionally 31-40, reaching FuturesUnordered) with frame-pointer chains / CFI-walkable / scan-only stacks, exception, thread names, unloaded modules, memory info, handles, Linux text streams incl. /proc/limits with several entries, MemoryList or Memory64List) and one processor option set, then executes the same world 3-6 times, each execution on a fresh thread with its own hash seed and its own schedule: per-module supplier delay (0-3 gates on the simulated clock) or HTTP chunking and latencies, executor policy, spurious-poll probability, 0-2 companion tasks processing the same dump through the same symbolizer. Execution 0 is the plain schedule (everything ready, FIFO, hash seed 0). All executions must render byte-identical JSON, pretty JSON, text and brief text. NON-TRIVIAL iff the world has at least two threads and at least two executions had different decision traces. DISTINCT = distinct (world digest, multiset of execution decision traces) among non-trivial runs.";
+pub const RULE_C13: &str = "Each run draws one world from the tape (arch x86/amd64/arm/arm64, OS, 1-6 modules with shared leaf names and consistent / absent symbol files incl. CFI programs with aliased registers, 1-8 threads (occasionally 31-40, reaching FuturesUnordered) with frame-pointer chains / CFI-walkable / scan-only stacks, exception, thread names, unloaded modules, memory info, handles, Linux text streams incl. /proc/limits with several entries, MemoryList or Memory64List) and one processor option set, then executes the same world 3-6 times, each execution on a fresh thread with its own hash seed and its own schedule: per-module supplier delay (0-3 gates on the simulated clock) or HTTP chunking and latencies, executor policy, spurious-poll probability, 0-2 companion tasks processing the same dump through the same symbolizer; with the HTTP supplier, executions after the first alternate between a fresh cache and the run's shared, already filled cache (served-from-cache must render the same as downloaded). Execution 0 is the plain schedule (everything ready, FIFO, hash seed 0). All executions must render byte-identical JSON, pretty JSON, text and brief text. NON-TRIVIAL iff the world has at least two threads and at least two executions had different decision traces. DISTINCT = distinct (world digest, multiset of execution decision traces) among non-trivial runs.";
 
 pub const RULE_C03: &str = "Each run draws one world as for C13 but with adversarial shapes enabled (cyclic / descending / extreme frame pointers, sp at 0 / 4 / 2^64-1 / outside the stack, stack at the top of the address space, CFI that makes no progress or never reads memory, hostile STACK WIN sizes, short /proc/limits lines, memory-info ranges ending at 2^64-1, exception parameters up to 15, code bytes at the crashing ip) and hostile symbol files (corrupted, random grammar, unterminated), one option set of {stable_basic, stable_all, unstable_all}, an optional storage fault on the serialised dump (torn tail, lost or stale 512/4096-byte sector, bit rot, header bit flip), symbol supply through the gated supplier or the real HTTP supplier with 404/5xx/connect error/reset/clean cut/stall+timeout/corrupt cache entry, and an optional companion task that is cancelled mid-way. Oracles: no panic; executor steps, provider calls and frames per thread within budgets tied to the input size; peak live heap within 256 MiB + 4096 x input bytes per concurrent processing; Ok state always renders as text, brief text, JSON and pretty JSON, the JSON parses, and rendering into a failing writer returns without panicking. NON-TRIVIAL iff the dump was accepted (processing returned a state) and at least one fault (storage, supply, hostile symbols, adversarial shape) was present. DISTINCT = distinct (world digest, fault description, decision trace) among non-trivial runs.";
 
@@ -42,6 +42,8 @@ pub struct Shared {
     pub modules: Arc<Vec<ModSpec>>,
     pub options: u8, // 0 stable_basic, 1 stable_all, 2 unstable_all
     pub use_http: bool,
+    /// HTTP mode: a cache/tmp root that survives this execution (warm-cache executions of C13).
+    pub warm_root: Option<PathBuf>,
 }
 
 fn options_of(i: u8) -> ProcessorOptions<'static> {
@@ -228,6 +230,8 @@ pub struct ExecMode {
     /// C03: supply faults, cancellation of a companion, writer faults.
     pub faults: bool,
     pub companions: u32,
+    /// HTTP mode: use (and fill) the run's shared cache directory instead of a fresh one.
+    pub use_warm_cache: bool,
 }
 
 /// Runs inside a sub-execution (own thread, own context).  Every decision comes from the
@@ -244,7 +248,13 @@ pub fn execute(shared: Shared, mode: ExecMode, stack_budget: u64, nthreads: u64)
     let mut supply_faults = 0u32;
     let supplier: Box<dyn FnOnce() -> Symbolizer> = if shared.use_http {
         probe("e4.http_supplier");
-        let root = scratch.as_ref().unwrap().root.clone();
+        let root = match (&shared.warm_root, mode.use_warm_cache) {
+            (Some(w), true) => {
+                probe("e4.warm_cache_execution");
+                w.clone()
+            }
+            _ => scratch.as_ref().unwrap().root.clone(),
+        };
         std::fs::create_dir_all(root.join("cache")).unwrap();
         std::fs::create_dir_all(root.join("tmp")).unwrap();
         let mods = shared.modules.clone();
@@ -539,6 +549,7 @@ fn first_diff(a: &[u8], b: &[u8]) -> String {
 pub fn run_c13() -> Outcome {
     let many = true;
     let use_http = chance("c13.http", 1, 4);
+    let warm = if use_http { Some(Scratch::new("e4warm")) } else { None };
     let world = dumpgen::gen_world(&WorldOpts {
         max_threads: 8,
         many_threads: many,
@@ -552,6 +563,7 @@ pub fn run_c13() -> Outcome {
         modules: Arc::new(world.modules.clone()),
         options: ch("c13.options", 3) as u8,
         use_http,
+        warm_root: warm.as_ref().map(|w| w.root.clone()),
     };
     let nexec = 3 + ch("c13.nexec", 4) as usize;
     let companions = ch("c13.companions", 3);
@@ -571,7 +583,7 @@ pub fn run_c13() -> Outcome {
                 Tape::generate(ch("c13.exec_seed", u32::MAX) as u64 | ((i as u64) << 32))
             };
             let sh = shared.clone();
-            let mode = ExecMode { faults: false, companions: if i == 0 { 0 } else { companions } };
+            let mode = ExecMode { faults: false, companions: if i == 0 { 0 } else { companions }, use_warm_cache: use_http && i >= 1 && (i == 1 || chance("c13.warm_cache", 1, 2)) };
             let verbose = simkit::with_ctx(|c| c.verbose);
             let rep = run_sub(tape, verbose, move || execute(sh, mode, stack_budget, nthreads));
             for (k, v) in &rep.probes {
@@ -840,6 +852,7 @@ pub fn run_c03() -> Outcome {
         modules: Arc::new(world.modules.clone()),
         options: ch("c03.options", 3) as u8,
         use_http,
+        warm_root: None,
     };
     // budgets come from what the processor will actually see: the parsed (possibly damaged) dump
     let (stack_budget, nthreads, max_region) = measure(&world.dump, &world);
@@ -855,7 +868,7 @@ pub fn run_c03() -> Outcome {
     let verbose = simkit::with_ctx(|c| c.verbose);
     let rep = run_sub(tape, verbose, move || {
         simkit::alloc::set_cap(4usize << 30);
-        execute(sh, ExecMode { faults: true, companions }, stack_budget, nthreads)
+        execute(sh, ExecMode { faults: true, companions, use_warm_cache: false }, stack_budget, nthreads)
     });
     for (k, v) in &rep.probes {
         simkit::probe_add(k, *v);
@@ -980,9 +993,10 @@ pub fn run_c12_pipeline() -> Outcome {
         modules: Arc::new(world.modules.clone()),
         options: ch("c12p.options", 3) as u8,
         use_http: false,
+        warm_root: None,
     };
     let companions = ch("c12p.companions", 3);
-    let out = execute(shared, ExecMode { faults: false, companions }, world.total_stack_bytes, world.threads.len() as u64);
+    let out = execute(shared, ExecMode { faults: false, companions, use_warm_cache: false }, world.total_stack_bytes, world.threads.len() as u64);
     probe("e2.pipeline");
     let info = json!({"scenario": "process_minidump (real join_all of real walkers) over the gated supplier", "world": world.describe, "companions": companions, "steps": out.steps, "supplier_calls": out.per_key.values().map(|v| v.0).sum::<u32>(), "distinct_modules_asked": out.per_key.len(), "pending": [out.pending.0, out.pending.1]});
     let result = (|| -> simkit::Check {
